@@ -317,6 +317,8 @@ def caption_sets(thorough):
     yield "two languages, interleaved", {"langs": {
         "en-US": [(S, 3 * S, ["a"], None, None), (4 * S, 5 * S, ["b"], None, None)],
         "fr": [(2 * S, 3 * S, ["c"], None, None), (3 * S, 4 * S + 500000, ["d"], None, None), (6 * S, 7 * S, ["e"], None, None)]}}
+    yield "concurrent captions", {"langs": {"en-US": [(S, 2 * S, ["up"], L1, None), (S, 2 * S, ["down"], L2, None),
+                                                      (3 * S, 4 * S, ["next"], None, None)]}}
     yield "language code with metacharacters", {"langs": {"en\"<&>": [(S, 2 * S, ["hello"], None, None)]}}
     # layouts at the three levels
     yield "language layout", {"langs": {"en-US": [(S, 2 * S, ["hello"], None, None)]}, "lang_layout": {"en-US": L1}}
@@ -382,6 +384,43 @@ def explore(ctx, thorough):
                 bad["wellformed"].append(dict(case, problem=err, document=doc[-400:]))
             else:
                 _judge_dfxp(spec, parsed, doc, case, bad)
+        # ---------------- the other DFXP writers (one p per run of concurrent captions)
+        for wname in ("SinglePositioningDFXPWriter", "LegacyDFXPWriter"):
+            try:
+                fn, xdoc, _ = W.write("pycaption/dfxp/extras.py", wname, cs)
+                fns[wname] = fn
+            except FoldRaise as e:
+                bad["structure"].append(dict(case, writer=wname, raises=f"{e.exc_name}: {e}"[:160]))
+                continue
+            except AnalysisError as e:
+                raise AnalysisError(f"{wname}.write cannot be folded on the set '{label}': {e}")
+            if snapshot(cs) != before:
+                bad["unchanged"].append(dict(case, writer=wname, why="the caption set differs after write()"))
+            parsed, err = read_dfxp(xdoc)
+            if parsed is None:
+                bad["wellformed"].append(dict(case, writer=wname, problem=err, document=xdoc[-300:]))
+                continue
+            refs = [p_ for p_ in parsed["problems"] if "definition" in p_ or "xml:id" in p_ or "never referenced" in p_]
+            if refs:
+                bad["refs"].append(dict(case, writer=wname, problems=refs[:3]))
+            langs_written = [l for l, _, _ in parsed["langs"]]
+            if wname == "SinglePositioningDFXPWriter" and langs_written != list(spec["langs"]):
+                bad["langs"].append(dict(case, writer=wname, divs=langs_written, required=list(spec["langs"])))
+            for (lang, _, ps) in parsed["langs"]:
+                caps = spec["langs"].get(lang)
+                if caps is None:
+                    continue
+                runs = []
+                for c in caps:
+                    if runs and (runs[-1][0], runs[-1][1]) == (c[0], c[1]):
+                        continue
+                    runs.append(c)
+                if len(ps) != len(runs):
+                    bad["structure"].append(dict(case, writer=wname, language=lang, paragraphs=len(ps),
+                                                 runs_of_concurrent_captions=len(runs)))
+                elif [(p_["begin"], p_["end"]) for p_ in ps] != [(fmt_ms(c[0]), fmt_ms(c[1])) for c in runs]:
+                    bad["times"].append(dict(case, writer=wname, written=[(p_["begin"], p_["end"]) for p_ in ps][:3],
+                                             required=[(fmt_ms(c[0]), fmt_ms(c[1])) for c in runs][:3]))
         # ---------------- SAMI
         try:
             fn, sdoc, _ = W.write("pycaption/sami.py", "SAMIWriter", cs)
@@ -460,6 +499,9 @@ def _judge_sami(spec, parsed, doc, case, bad):
         bad["sami_syncs"].append(dict(case, problems=parsed.problems[:3]))
         return
     starts = [s for s, _ in parsed.syncs]
+    overlapping = any(a[1] > b[0] for caps in spec["langs"].values() for a, b in zip(caps, caps[1:]))
+    if overlapping:
+        return          # cues that overlap within a language are outside the SAMI clauses' domain (sorted, non-overlapping)
     if starts != sorted(starts):
         bad["sami_syncs"].append(dict(case, why="sync blocks are not in non-decreasing time order", starts=starts))
     # per language: the paragraphs labelled with a class that is (or contains) that language
